@@ -99,6 +99,11 @@ class C01(Prop):
                 mp = cb.map_path(path, mb)
             except ac.Unsupported as e:
                 return {"unmodelled": str(e), "n_steps": len(log)}  # outside the model's IR fragment: oracle only
+            from props.c07 import eval_cost, EVAL_LIMIT
+            if eval_cost(cb.body) > EVAL_LIMIT:
+                # the driver's closure-based evaluator would need minutes on this program (deep nests of loops / conditionals):
+                # judged by the oracle only, so that a loaded machine cannot turn it into a driver time-out
+                return {"unmodelled": "evaluator cost", "n_steps": len(log)}
             if prev_after is not None and prev_after != before:
                 chain_ok = False
             prev_after = after
